@@ -199,6 +199,25 @@ def main(argv=None):
                 else:
                     why = (o.get("failed") or [{}])[0].get("reason", "") if o["name"].endswith(":within-engine-subset") else ""
                     undecided.append({"unit": o.get("unit"), "reason": f"obligation {o['name']} {o['status']}" + (f" ({why}); no failing input in the replay search" if why else "")})
+    # ---- conformance replays (validation layer, pyvc/conform.py): the concrete contracts on the real code for seeded inputs
+    conformance = None
+    if not os.environ.get("PYVC_NO_CONFORMANCE"):
+        from . import conform
+        cdir = os.path.join(VERIF, rrel("replays", prop)) if not RROOT else rrel("replays", prop)
+        try:
+            conformance, cfailed = conform.run(prop, mod, a.tier, seed, repo, cdir, only=a.only)
+        except Exception as e:  # pragma: no cover  (validation layer: never turns into a verdict by itself)
+            conformance, cfailed = {"error": f"{type(e).__name__}: {e}"}, []
+        already = {o["name"] for o, _, _ in violations}
+        for lbl, cpath, rr in cfailed:
+            o = {"name": f"{lbl}:conformance", "status": "REFUTED", "unit": lbl, "ms": 0, "backends": ["replay"], "queries": 0,
+                 "failed": [{"status": "REFUTED", "reason": "the contract evaluated on the real code fails for a concrete input: " + str(rr.get("detail", ""))[:300]}]}
+            rel = os.path.relpath(cpath, VERIF) if not RROOT else cpath
+            kf = [k for k in known if k.get("kind") == "finding" and k.get("obligation") == o["name"]]
+            if kf:
+                known_hits.append((o, kf[0]))
+            elif o["name"] not in already:
+                violations.append((o, rel, ""))
     # obligations that the ledger knows but that were not generated
     names = {o["name"] for o in obligations}
     missing = [n for n in ledger if n not in names] if not a.only else []
@@ -259,6 +278,7 @@ def main(argv=None):
             "undecided": undecided, "known_findings_hit": [k[1].get("id") for k in known_hits],
             "not_decided_clauses": list(getattr(mod, "NOT_DECIDED", [])),
             "bounded": extra.get("bounded", []),
+            "conformance": conformance,
             "extra": {k: v for k, v in extra.items() if k not in ("obligations", "samples", "bounded")},
         },
         "assumptions": trusted,
